@@ -35,7 +35,7 @@ class ModelMixin:
                      "ite", "unit", "is_none", "is_str", "is_int", "is_ref", "last", "ref", "allocated",
                      "held", "is_list_of_pos_int", "cls_id", "is_float", "sval", "ival", "dget", "singleton", "str", "is_bool", "is_dict", "is_list",
                      "setof", "contains", "prefix_of", "is_bytes", "is_cls", "map_int2str", "joinstr", "split", "lookup_global",
-                     "funcval", "seqmap", "extends", "only_changed", "UNSET", "unchanged", "unchanged_old", "cls_module_name", "all_reports", "empty_log", "count_failed", "suffix_of", "proj_a", "all_b", "all_tag", "card", "outside", "mro", "none_in", "is_concat", "none_missing", "is_subset", "union", "restrict", "filter_out", "params_of", "truthy", "is_prefix", "proj_b", "all_b_not", "all_a", "all_nat", "levelstr", "ascii_ok", "bytes_of", "str_contains", "codec_facts", "is_tuple"}
+                     "funcval", "seqmap", "extends", "only_changed", "UNSET", "unchanged", "unchanged_old", "cls_module_name", "all_reports", "empty_log", "count_failed", "suffix_of", "proj_a", "all_b", "all_tag", "card", "outside", "mro", "none_in", "is_concat", "none_missing", "is_subset", "union", "restrict", "lvk", "unlvk", "filter_out", "params_of", "truthy", "is_prefix", "proj_b", "all_b_not", "all_a", "all_nat", "levelstr", "ascii_ok", "bytes_of", "str_contains", "codec_facts", "is_tuple"}
 
     # ------------------------------------------------------------------ spec-mode calls
     def spec_call(self, e, st):
@@ -181,9 +181,16 @@ class ModelMixin:
                 d1 = z3.Store(d1, box(kk), z3.BoolVal(False))
                 m1 = z3.Store(m1, box(kk), NoneV)
             return SV("sdict", (d1, m1))
+        if name == "lvk":
+            # the dictionary key a TaskLevel with this level list stands for (content key, see pyrx.py)
+            from .pyrx import LVK
+            return SV("val", LVK(self.spec_builtin(st, "seq", [a[0]], e).t))
+        if name == "unlvk":
+            from .pyrx import UNLVK
+            return SV("seq", UNLVK(box(a[0])))
         if name == "dget":
             d1, m1 = self.as_sdict(st, self.spec_builtin(st, "dict_of", [a[0]], e))
-            kb = box(a[1])
+            kb = self.kbox(st, a[1])
             dflt = box(a[2]) if len(a) > 2 else NoneV
             return SV("val", z3.If(z3.Select(d1, kb), z3.Select(m1, kb), dflt))
         if name == "keys_subset":
@@ -524,6 +531,17 @@ class ModelMixin:
                 st.assume(z3.Length(vals) == z3.Length(ks))
                 st.assume(z3.ForAll([i], z3.Implies(z3.And(0 <= i, i < z3.Length(ks)), vals[i] == z3.Select(self.map_of(st, d), ks[i])),
                                     patterns=[vals[i]]))
+                # the same facts in membership form (what list(d.values()) contains), with a witness key per value
+                kq = z3.Const("k!vals", Val)
+                vq = z3.Const("v!vals", Val)
+                self.n += 1
+                wit = z3.Function("keywit!%d" % self.n, Val, Val)
+                dom_, mp_ = self.dom_of(st, d), self.map_of(st, d)
+                st.assume(z3.ForAll([kq], z3.Implies(z3.Select(dom_, kq), z3.Contains(vals, z3.Unit(z3.Select(mp_, kq)))),
+                                    patterns=[z3.Select(dom_, kq)]))
+                st.assume(z3.ForAll([vq], z3.Implies(z3.Contains(vals, z3.Unit(vq)),
+                                                     z3.And(z3.Select(dom_, wit(vq)), z3.Select(mp_, wit(vq)) == vq)),
+                                    patterns=[z3.Contains(vals, z3.Unit(vq))]))
                 return [Res(st, self.new_list(st, vals, self.key_hint(d, SV("val", ks[0]))))]
             raise Unsupported("%s() of %s" % (name, v.k))
         if name == "set":
@@ -720,6 +738,10 @@ class ModelMixin:
         k = recv.k
         if k == "obj":
             return self.call_opaque(st, recv, recv.h or "Opaque", name, pos, kw, star, starkw)
+        if (k == "inst" and self.is_pclass(recv.h)) or (k == "dict" and recv.x == "pmap"):
+            r_ = self.pyr_method(st, recv, name, a, kw, node)
+            if r_ is not None:
+                return r_
         if star is not None or starkw is not None and not (k == "dict" and name == "update") and not (k == "str" and name == "format"):
             raise Unsupported("star arguments to method " + name)
         if k == "list":
@@ -787,7 +809,7 @@ class ModelMixin:
             if name == "copy":
                 return [Res(st, self.new_dict(st, dom, mp, h=recv.h))]
             if name == "get":
-                kb = box(a[0])
+                kb = self.kbox(st, a[0])
                 dflt = box(a[1]) if len(a) > 1 else NoneV
                 h = self.key_hint(recv, a[0])
                 v = z3.If(z3.Select(dom, kb), z3.Select(mp, kb), dflt)
